@@ -41,6 +41,11 @@ func (c06) Gen(r *rand.Rand, tier string, run int) *core.Case {
 	hostiles := 1 + r.IntN(2)
 	c.Params["hostiles"] = hostiles
 	c.Params["honest"] = r.IntN(2)
+	// the first hostile peer does not listen: whatever the server writes to
+	// it fails (it shut its reading side down), what it sends arrives
+	if r.IntN(6) == 0 {
+		c.Params["deaf"] = 1
+	}
 	c.Params["local_client"] = r.IntN(3) // 0 no; 1 before the hostile connections; 2 concurrently
 	for x := 0; x < hostiles; x++ {
 		n := 2 + r.IntN(7)
@@ -90,6 +95,7 @@ type c06conn struct {
 	x    int
 	raw  *Raw
 	sent []c06sent
+	deaf bool // what the server writes to this peer fails
 }
 
 type c06state struct {
@@ -208,6 +214,11 @@ func (c06) Run(c *core.Case, env *core.Env) {
 			return
 		}
 		hc := &c06conn{x: x, raw: raw}
+		if c.P("deaf", 0) == 1 && x == 0 {
+			hc.deaf = true
+			raw.Conn.Peer().FailWrites(fmt.Errorf("write: broken pipe (the peer does not listen)"))
+			env.Probe("hostile-peers-that-do-not-listen")
+		}
 		st.conns = append(st.conns, hc)
 		wg.Add(1)
 		go func(hc *c06conn, ops []core.Op) {
@@ -362,7 +373,7 @@ func c06hostile(c *core.Case, env *core.Env, st *c06state, hc *c06conn, ops []co
 				lastCall = id
 			}
 		case "wait":
-			if lastCall != 0 {
+			if lastCall != 0 && !hc.deaf {
 				raw.WaitID(lastCall)
 			}
 		}
@@ -494,7 +505,7 @@ func (c06) Check(c *core.Case, env *core.Env, res zzsim.Result, v *core.Verdict)
 			if !eof {
 				bad("not-closed", "hostile connection %d addressed service %d before authenticating (%s) and the connection was not closed", hc.x, firstBad.frame.Service, firstBad.frame)
 			}
-			if firstBad.frame.Type == ref.Call {
+			if firstBad.frame.Type == ref.Call && !hc.deaf {
 				got := false
 				for _, rf := range hc.raw.Frames() {
 					if rf.F.ID == firstBad.frame.ID && rf.F.Type == ref.Error {
